@@ -1008,6 +1008,10 @@ func (w *World) runCall(t *core.Task, o *CallObs) {
 			body = p.ReqMsgs[0]
 		}
 		req := connect.NewRequest(mkMsg(body))
+		if prev := w.byID[p.ReuseRequestOf]; p.ReuseRequestOf != "" && prev != nil && prev.SentReq != nil {
+			req = prev.SentReq // the Request object of an earlier unary call, sent again
+			req.Msg = mkMsg(body)
+		}
 		req.Header().Set(callHeader, p.ID)
 		merge(req.Header(), p.ReqHeader)
 		r := OpRec{Op: "callserverstream", Start: stepsNow(w.S), StartT: time.Now()}
